@@ -271,6 +271,33 @@ def run(tier):
                         C.ob("C15/get-after-set", "%s(%s) then %s()" % (label, albl, acc), got == [want],
                              "getter returns %s after the setter wrote %s = %r (argument %s)" % ([show_value(g) for g in got], written_key, symstr.show(p1[2][0][1]), show_value(want)), getter["sp"])
                         C.sample({"pair": label, "field": written_key, "stored": symstr.show(p1[2][0][1]), "read_back": [show_value(g) for g in got]}) if len(C.samples) < 25 else None
+                # ---- list getters read every layout of the separator the documented format allows (parsed text)
+                if not clearing and len(vals) == 1 and vals[0][0] == "abs" and vals[0][1] == "svec" and len(vals[0][2]) >= 2 and len(p1[2]) == 1:
+                    stored = p1[2][0][1]
+                    ps = symstr.pieces_of(stored) if stored[0] in ("sstr", "str") else None
+                    seps = [x[1] for x in (ps or ()) if x[0] == "lit"]
+                    if ps and seps and len(set(seps)) == 1 and all(x[0] == "atom" for i, x in enumerate(ps) if i % 2 == 0) and len(ps) == 2 * len(vals[0][2]) - 1:
+                        sep = seps[0]
+                        if "," in sep:
+                            variants = [",", ", ", ",\n", " , ", ",  "]
+                        elif sep == " ":
+                            variants = ["  ", "\n", "\t"]
+                        else:
+                            variants = []
+                        for alt in variants:
+                            if alt == sep:
+                                continue
+                            text = symstr.mk([("lit", alt) if x[0] == "lit" else x for x in ps])
+                            pv = ("abs", "para", ((p1[2][0][0], text),))
+                            I5 = hirai.Interp(F, Mod(F))
+                            st5 = hirai.State(depth=0).setroot(("T", "view"), ("struct", view, (("0", pv),)))
+                            r5 = I5.inline(getter, [("ref", (("T", "view"),))], st5)
+                            got5 = [canon(I5, s, v) for ctl, v, s in r5 if ctl == OK]
+                            if len(r5) != 1 or r5[0][0] != OK or any(has_unk(g) for g in got5):
+                                C.note("undecided", "%s on %r: getter not decidable" % (acc, symstr.show(text)))
+                                continue
+                            C.ob("C15/list-layouts", "%s::%s() on %r" % (view.split("::", 1)[1], acc, symstr.show(text)), got5 == [canon(None, None, vals[0])],
+                                 "the getter reads %s; the same list written with %r between the items reads %s" % ([show_value(g) for g in got5], sep, show_value(canon(None, None, vals[0]))), getter["sp"])
                 # ---- run 2: field already present between two foreign fields
                 key_for_prior = written_key
                 if clearing:
